@@ -76,6 +76,8 @@ struct Shared {
     work_us: std::sync::atomic::AtomicU64,
     /// the handler that overruns the time-out on purpose has started sleeping
     slept: AtomicBool,
+    /// the overrunning handler is inside its sleep right now
+    sleeping: AtomicBool,
 }
 
 #[derive(Clone, Debug)]
@@ -180,7 +182,9 @@ impl Node {
         }
         if self.sleep_on == Some(p) {
             self.sh.slept.store(true, Ordering::SeqCst);
+            self.sh.sleeping.store(true, Ordering::SeqCst);
             std::thread::sleep(std::time::Duration::from_millis(400));
+            self.sh.sleeping.store(false, Ordering::SeqCst);
         }
     }
     async fn input(&mut self, msg: P, cx: &mut Context<Self>) {
@@ -1340,6 +1344,16 @@ impl Engine for Net {
                             "hung"
                         }
                     };
+                    // the worker threads are joined by the drop, also after a time-out: no handler can be in progress any more
+                    let still_running: Vec<usize> = sh.busy.lock().unwrap().iter().enumerate().filter(|(_, b)| **b).map(|(i, _)| i).collect();
+                    if returned == "returned" && timeout_seen && threads > 1 && sh.slept.load(Ordering::SeqCst) && !still_running.is_empty() {
+                        // (on one thread a timed-out step runs on a helper thread that is abandoned by design; a handler that
+                        // is merely suspended on a channel keeps its flag, hence only the overrunning, sleeping handler counts)
+                        let sleeping = sh.sleeping.load(Ordering::SeqCst);
+                        if sleeping {
+                            out.monitor.push(("C19".into(), format!("dropping the simulation after a Timeout returned while the handler that overran the time-out was still running on a worker thread ({threads} threads): the workers were not joined")));
+                        }
+                    }
                     // worker threads are joined by the drop: wait briefly for the count to come back to the baseline
                     let mut threads_now = thread_count();
                     for _ in 0..200 {
@@ -1441,6 +1455,23 @@ impl Engine for Net {
             if matches!(w[0], "init" | "ev" | "qr" | "sev") && !r.starts_with("terminated") && !r.starts_with("bad-op") && !r.starts_with("panic") && !r.starts_with("no-recipient") && !r.starts_with("timeout") && !r.starts_with("bad-query") {
                 let got = r.split(" | ").next().unwrap_or("").to_string();
                 let exp = expected_report(&specs);
+                if got.starts_with("deadlock ") {
+                    // a stalled run: a model whose mailbox holds messages while none of its handlers is in progress is asleep
+                    // in `recv` on a non-empty mailbox — its wake-up was lost (in a genuine deadlock the models with queued
+                    // messages are suspended inside a handler)
+                    let ids = CHAN_IDS.lock().unwrap().clone();
+                    let ops = nexosim::verif_hooks::channel_ops();
+                    let busy = sh.busy.lock().unwrap().clone();
+                    for i in 0..specs.len() {
+                        let held = ids.get(i).and_then(|id| ops.get(id)).map(|(pu, po)| pu.saturating_sub(*po)).unwrap_or(0);
+                        if specs[i].sim && held > 0 && !busy.get(i).copied().unwrap_or(true) {
+                            let what = format!("`{l}` stalled with {held} message(s) in the mailbox of model {} while that model is not inside any handler: the receiver sleeps on a non-empty mailbox (its wake-up was lost)", qname(&specs, i));
+                            out.monitor.push(("C12".into(), what.clone()));
+                            out.monitor.push(("C04".into(), what));
+                            break;
+                        }
+                    }
+                }
                 if got != exp && (got == "ok" || got.starts_with("deadlock") || got.starts_with("message-loss")) {
                     out.monitor.push(("C06".into(), format!("`{l}` returned `{got}` but the mailboxes hold: `{exp}` (pushes − pops per mailbox)")));
                     if got.starts_with("deadlock ") && exp.starts_with("deadlock ") {
@@ -1632,6 +1663,12 @@ impl Engine for Net {
                 }
             } else {
                 v.push("C06");
+                // one side says "no failure" (ok / the non-fatal BadQuery) and the other a fatal error: a failure that is not
+                // one, or a failure that went unreported, is misclassified (C11)
+                let benign = |s: &str| s == "ok" || s == "bad-query";
+                if benign(&part(impl_r, 0)) != benign(&part(model_r, 0)) {
+                    v.push("C11");
+                }
             }
         }
         if part(impl_r, 0) == "ok" && part(model_r, 0) == "ok" {
@@ -2030,7 +2067,13 @@ fn gen_case(rng: &mut Rng, _idx: usize, tier: Tier, focus: &str) -> Case {
         }
     }
     if stall != 0 {
-        lines.push(format!("ev {stall_model} {TRIG}"));
+        // the trigger arrives as an event, or (one time in three) as a query: the replier replies and the stall it started
+        // elsewhere must still be reported
+        if rng.chance(1, 3) {
+            lines.push(format!("qr {stall_model} {TRIG}"));
+        } else {
+            lines.push(format!("ev {stall_model} {TRIG}"));
+        }
         lines.push(format!("ev {} 5", rng.below(n as u64)));
     }
     // drop the simulation (with its scheduler handle, addresses and sources) at some point of the driver sequence:
